@@ -17,6 +17,12 @@
    equatorial limits of the code) and seeded generic orbits: relations only (round trips,
    cross conversions, ranges, class flags for decided variants); the case table comes from TLC.
 4. Spec mutant: RetroConvention = "ccw" (the code as written) must be refuted by TLC.
+5. OrbitLatticeConfig.tla: life-cycle of ONE configuration object (Build, Convert, Derive by model_copy(update) /
+   copy / deepcopy / assignment, Convert ...) for the ECI, the four COE and the EQE field combinations; every
+   behaviour is replayed on a real object and each toECI() compared with a freshly built object of the same
+   fields (ConvertIgnoresHistory).  Spec mutant Memoise = TRUE must be refuted.
+6. Seam arguments (a few ulps around 0 / whole turns) for every documented-range angle; the prograde
+   equinoctial set of an exactly equatorial retrograde state must be refused, not answered with NaN.
 """
 from __future__ import annotations
 
@@ -384,7 +390,12 @@ def replay_real_orientations(ctx: Ctx, sink: Sink, I: Impl, orbits: list, rng: r
     for rec in base:
         ecc = O.qf(rec["e"])
         nu = O.quarter(rec["q"])
-        for a_km in (REAL_SMA_KM[:2] + REAL_SMA_KM[3:5] if ctx.quick else REAL_SMA_KM):
+        # perigee above the Earth's surface (the statement's orbits): the smallest sizes are replaced by
+        # multiples of the smallest admissible one for the eccentric families
+        lo = max(6700.0, 6800.0 / (1.0 - ecc))
+        sizes = [a for a in (REAL_SMA_KM[:2] + REAL_SMA_KM[3:5] if ctx.quick else REAL_SMA_KM) if a >= lo]
+        sizes += [lo * f for f in (1.0, 1.0371, 1.21, 1.4142)][: (4 if ctx.quick else 6) - len(sizes)]
+        for a_km in sizes:
             S = O.Scaled(rec, a_km, I.mu)
             r_pf, v_pf = S.pos(rec["r"]), S.vel(rec["v"])
             for inc_d in REAL_INC_DEG:
@@ -427,6 +438,255 @@ def replay_real_orientations(ctx: Ctx, sink: Sink, I: Impl, orbits: list, rng: r
                             sink.fail(f"exception-real-orientation-{case}-{type(ex).__name__}", f"conversion raised {ex!r}", rp)
     ctx.traces_validated += n
     ctx.extra["lattice_anomalies_in_real_orientations"] = n
+
+
+# ------------------------------------------------- configuration objects: life-cycle sequences
+def _config_forms(I: Impl, orbits: list, quick: bool):
+    """Concrete field values for the abstract valuations of OrbitLatticeConfig.tla: per form a list of
+    (class, [(field name, base value, alternative value), ...]) built from lattice orbits (base) and a
+    second orbit of the same form (alternative)."""
+    sc = I.sc
+
+    def pick(case, retro, n):
+        out = [o for o in orbits if o["el"]["case"] == case and o["el"]["retro"] == retro and o["q"] in (1, 3)]
+        return out[:: max(1, len(out) // n)][:n]
+
+    def ang(k, d):
+        return (90.0 * k + d) % 360.0
+    n = 1 if quick else 4
+    forms = {"eci": [], "coe_IE": [], "coe_EE": [], "coe_IC": [], "coe_EC": [], "eqe": []}
+    for rec in pick("IE", False, n) + pick("IE", True, n):
+        el, eq = rec["el"], rec["eqe"]
+        ecc = O.qf(rec["e"])
+        S = O.Scaled(rec, O.sizes_for(ecc, True)[1], I.mu)
+        inc = math.degrees(math.atan2(O.qf(el["sini"]), O.qf(el["cosi"])))
+        forms["coe_IE"].append((sc.COEStateConfig, [
+            ("semi_major_axis", S.sma, S.sma * 1.07), ("eccentricity", ecc, 0.5 * ecc + 0.01),
+            ("inclination", inc, inc + 20.0 if inc < 150.0 else inc - 20.0),
+            ("right_ascension", ang(el["raan"], 0.0), ang(el["raan"], 37.5)),
+            ("argument_periapsis", ang(el["argp"], 0.0), ang(el["argp"], 37.5)),
+            ("true_anomaly", ang(el["nu"], 0.0), ang(el["nu"], 101.25))]))
+        lam = math.degrees(O.triple(eq["lam"], ecc)) % 360.0
+        h, k, p_, q_ = (O.qf(eq[c]) for c in "hkpq")
+        forms["eqe"].append((sc.EQEStateConfig, [
+            ("semi_major_axis", S.sma, S.sma * 1.07), ("h", h, h + 0.05), ("k", k, k - 0.05), ("p", p_, p_ + 0.1),
+            ("q", q_, q_ - 0.1), ("mean_longitude", lam, (lam + 100.0) % 360.0), ("retrograde", False, True)]))
+        x = S.state(rec["r"], rec["v"])
+        forms["eci"].append((sc.ECIStateConfig, [("position", x[:3].tolist(), (1.03 * x[:3]).tolist()),
+                                                 ("velocity", x[3:].tolist(), (0.98 * x[3:]).tolist())]))
+    for retro in (False, True):
+        for rec in pick("EE", retro, n):
+            el, ecc = rec["el"], O.qf(rec["e"])
+            S = O.Scaled(rec, O.sizes_for(ecc, True)[1], I.mu)
+            i0 = 180.0 if retro else 0.0
+            forms["coe_EE"].append((sc.COEStateConfig, [
+                ("semi_major_axis", S.sma, S.sma * 1.07), ("eccentricity", ecc, 0.5 * ecc + 0.01),
+                ("inclination", i0, 180.0 - 4e-8 if retro else 4e-8),
+                ("true_longitude_periapsis", ang(el["lonper_motion"], 0.0), ang(el["lonper_motion"], 37.5)),
+                ("true_anomaly", ang(el["nu"], 0.0), ang(el["nu"], 101.25))]))
+        for rec in pick("IC", retro, n):
+            el = rec["el"]
+            S = O.Scaled(rec, 7000.0, I.mu)
+            inc = math.degrees(math.atan2(O.qf(el["sini"]), O.qf(el["cosi"])))
+            forms["coe_IC"].append((sc.COEStateConfig, [
+                ("semi_major_axis", S.sma, S.sma * 1.07), ("eccentricity", 0.0, 4e-8),
+                ("inclination", inc, inc + 20.0 if inc < 150.0 else inc - 20.0),
+                ("right_ascension", ang(el["raan"], 0.0), ang(el["raan"], 37.5)),
+                ("argument_latitude", ang(el["arglat"], 0.0), ang(el["arglat"], 101.25))]))
+        for rec in pick("EC", retro, n):
+            el = rec["el"]
+            S = O.Scaled(rec, 7000.0, I.mu)
+            forms["coe_EC"].append((sc.COEStateConfig, [
+                ("semi_major_axis", S.sma, S.sma * 1.07), ("eccentricity", 0.0, 4e-8),
+                ("inclination", 180.0 if retro else 0.0, 180.0 - 4e-8 if retro else 4e-8),
+                ("true_longitude", ang(el["truelon_motion"], 0.0), ang(el["truelon_motion"], 101.25))]))
+    return forms
+
+
+def config_lifecycles(ctx: Ctx, sink: Sink, I: Impl, orbits: list):
+    """Every behaviour of OrbitLatticeConfig.tla (Build, then Convert / Derive in every order, every way of
+    deriving, every field of every accepted field combination) on ONE real object; each Convert must equal the
+    toECI() of a freshly built object with the current fields (ConvertIgnoresHistory)."""
+    import copy as _copy
+    cfg = ("SPECIFICATION Spec\nCONSTANT Forms <- FormsAll\nCONSTANTS MaxDerive = %d Memoise = %s\n"
+           "INVARIANT ConvertIgnoresHistory\nINVARIANT DerivedDiffers\n")
+    res = tlc.require_ok(tlc.run_tlc("OrbitLatticeConfig", cfg % (2, "FALSE") + "INVARIANT EmitBehaviour\n", ctx.sub("config"),
+                                     workers=min(4, ctx.cpus), timeout=900, coverage=True), "OrbitLatticeConfig")
+    ctx.add_tlc(res, "OrbitLatticeConfig.tla exhaustive: life-cycles of one configuration object, ConvertIgnoresHistory")
+    if not res.ok:
+        raise tlc.MachineryError("OrbitLatticeConfig.tla fails at specification level:\n" + res.stdout[-2000:])
+    for act in ("Build", "Convert", "Derive"):
+        if res.coverage.get(f"OrbitLatticeConfig!{act}", (0, 0))[1] == 0:
+            raise tlc.MachineryError(f"OrbitLatticeConfig.tla action {act} never taken")
+    mut = tlc.run_tlc("OrbitLatticeConfig", cfg % (1, "TRUE"), ctx.sub("configmutant"), workers=1, timeout=600)
+    ctx.add_tlc(mut, "spec mutant Memoise=TRUE (first conversion remembered, carried over by every Derive): ConvertIgnoresHistory must be refuted")
+    if not any(nm == "ConvertIgnoresHistory" for nm, _ in mut.invariant_violations):
+        raise tlc.MachineryError("spec mutant Memoise=TRUE was not refuted:\n" + mut.stdout[-1500:])
+    ctx.extra.setdefault("spec_mutants_killed", []).append("Memoise=TRUE")
+    behaviours = sorted(res.tagged("CONFIG"), key=lambda b: (b["form"], str(b["ops"])))
+    if not behaviours:
+        raise tlc.MachineryError("OrbitLatticeConfig.tla emitted no behaviours")
+    forms = _config_forms(I, orbits, ctx.quick)
+    n = 0
+    for bi, beh in enumerate(behaviours):
+        concrete = forms[beh["form"]]
+        if not concrete:
+            raise tlc.MachineryError(f"no lattice orbit for configuration form {beh['form']}")
+        # quick: one base orbit per behaviour (rotating through the available ones); thorough: all
+        for cls, fields in (concrete if not ctx.quick else [concrete[bi % len(concrete)]]):
+            n += 1
+            names = [f[0] for f in fields]
+            cur = {f[0]: f[1] for f in fields}
+            bits = [0] * len(fields)
+            ctx.case(("config", beh["form"], str(beh["ops"]), str(fields[0][1])), nontrivial=True,
+                     sample={"form": beh["form"], "ops": beh["ops"], "fields": names} if n == 77 else None)
+            rp = {"form": beh["form"], "class": cls.__name__, "ops": beh["ops"], "base_fields": {k: v for k, v in cur.items()}}
+            try:
+                obj = cls(**cur)
+                k_conv = 0
+                for op in beh["ops"]:
+                    if op[0] == "convert":
+                        got = np.asarray(obj.toECI(EPOCH), dtype=float)
+                        want_bits = beh["expected"][k_conv]
+                        k_conv += 1
+                        if want_bits != bits:
+                            raise tlc.MachineryError(f"driver / spec valuation mismatch {want_bits} vs {bits}")
+                        fresh = np.asarray(cls(**cur).toECI(EPOCH), dtype=float)
+                        if not (np.all(np.isfinite(got)) and _close(got, fresh, 1e-13)):
+                            hows = [o[1] for o in beh["ops"] if o[0] == "derive"]
+                            sink.fail(f"config-convert-depends-on-history-{beh['form']}",
+                                      f"{cls.__name__}.toECI() after {beh['ops']} differs from a freshly built {cls.__name__} with the same fields "
+                                      f"by {_rel(got, fresh)[0]:.3g} |r| (derived via {hows})",
+                                      dict(rp, current_fields=dict(cur), got=got.tolist(), fresh=fresh.tolist()))
+                            break
+                    else:
+                        _, how, idx = op
+                        name, base, alt = fields[idx - 1]
+                        bits[idx - 1] ^= 1
+                        val = alt if bits[idx - 1] else base
+                        cur[name] = val
+                        if how == "model_copy":
+                            obj = obj.model_copy(update={name: val})
+                        elif how == "assign":
+                            setattr(obj, name, val)
+                        else:
+                            obj = _copy.deepcopy(obj) if how == "deepcopy" else _copy.copy(obj)
+                            setattr(obj, name, val)
+            except tlc.MachineryError:
+                raise
+            except Exception as ex:  # noqa: BLE001
+                sink.fail(f"config-lifecycle-exception-{beh['form']}-{type(ex).__name__}", f"{cls.__name__} life-cycle {beh['ops']} raised {ex!r}", rp)
+    ctx.traces_validated += n
+    ctx.extra["config_lifecycle_behaviours"] = n
+    ctx.extra["config_lifecycle_behaviours_from_spec"] = len(behaviours)
+
+
+# --------------------------------------------------- seam arguments of every documented-range angle
+def seam_arguments(ctx: Ctx, sink: Sink, I: Impl):
+    """Angles a few ulps below zero / around a whole turn (and multiples) handed to everything that documents
+    an output range [0, 2 pi): both element classes (every angle attribute, every singular case), the element
+    conversions and the anomaly / longitude functions.  The result must lie in the range and equal the
+    argument modulo a turn."""
+    two_pi = O.TWOPI
+    seams = []
+    for base in (0.0, two_pi, -two_pi, 2 * two_pi, 0.5 * two_pi):
+        v = base
+        seams.append(v)
+        for direction in (-math.inf, math.inf):
+            w = base
+            for _ in range(3):
+                w = float(np.nextafter(w, direction))
+                seams.append(w)
+    seams += [-1e-17, -1e-16, -5e-324, 5e-324, 1e-17, two_pi - 1e-16, two_pi + 1e-15]
+    CE, EE, c, a = I.el.ClassicalElements, I.el.EquinoctialElements, I.c, I.a
+    n = 0
+
+    def chk(fn, name, val, want, rp, tol=1e-9):
+        _range_check(sink, fn, name, val, rp)
+        if want is not None and O.ang_diff(float(val), want) > tol:
+            sink.fail(f"seam-value-{fn}.{name}", f"{fn}: {name} = {float(val)!r} for an argument equal to {want!r} modulo a turn", rp)
+    for v in seams:
+        rp = {"argument": repr(v)}
+        n += 1
+        ctx.case(("seam", repr(v)), nontrivial=True)
+        try:
+            for ecc, inc, case in ((0.1, 1.0, "IE"), (0.1, 0.0, "EE"), (0.0, 1.0, "IC"), (0.0, 0.0, "EC"), (0.1, math.pi, "EE-retro"), (0.0, math.pi, "EC-retro")):
+                for slot in range(3):
+                    ang = [0.3, 0.4, 0.5]
+                    ang[slot] = v
+                    ce = CE(7000.0, ecc, inc, *ang)
+                    for name in ("raan", "argp", "true_anomaly", "mean_anomaly"):
+                        chk(f"ClassicalElements[{case}]", name, getattr(ce, name), None, rp)
+                    out = I.u.singularityCheck(ecc, inc, *ang)
+                    for name, val in zip(("raan", "argp", "anomaly"), out):
+                        chk(f"singularityCheck[{case}]", name, val, None, rp)
+                ce = CE(7000.0, ecc, inc, v, v, v)
+                if case == "IE":
+                    for name in ("raan", "argp", "true_anomaly"):
+                        chk("ClassicalElements[IE]", name, getattr(ce, name), v, rp)
+            for h, k in ((0.1, 0.1), (0.0, 0.0), (0.0, -0.3)):
+                for retro in (False, True):
+                    ee = EE(7000.0, h, k, 0.1, 0.1, v, retro=retro)
+                    chk("EquinoctialElements", "mean_longitude", ee.mean_longitude, v, rp)
+                    chk("EquinoctialElements", "eccentric_longitude", ee.eccentric_longitude, None, rp)
+                    chk("eccLong2MeanLong", "result", a.eccLong2MeanLong(v, h, k), None, rp)
+                    chk("meanLong2EccLong", "result", a.meanLong2EccLong(v, h, k), None, rp)
+                    out = c.eqe2coe(7000.0, h, k, 0.1, 0.1, v, retro=retro)
+                    for name, val in zip(("raan", "argp", "anomaly"), out[3:]):
+                        chk("eqe2coe", name, val, None, rp)
+            for ecc in (0.0, 5e-8, 0.1, 0.6):
+                for fn in ("trueAnom2MeanAnom", "meanAnom2TrueAnom", "trueAnom2EccAnom", "eccAnom2TrueAnom", "eccAnom2MeanAnom", "meanAnom2EccAnom"):
+                    chk(fn, "result", getattr(a, fn)(v, ecc), v, rp)       # 0 and whole turns are fixed points of all six
+                for retro in (False, True):
+                    chk("trueAnom2MeanLong", "result", a.trueAnom2MeanLong(v, ecc, 0.0, 0.0, retro=retro), v, rp)
+                    chk("meanLong2TrueAnom", "result", a.meanLong2TrueAnom(v, ecc, 0.0, 0.0, retro=retro), v, rp)
+                    chk("coe2eqe", "mean_longitude", c.coe2eqe(7000.0, max(ecc, 0.0), 1.0, v, 0.0, 0.0, retro=retro)[5], v if not retro else -v, rp)
+                    chk("coe2eqe", "mean_longitude", c.coe2eqe(7000.0, max(ecc, 0.0), 1.0, 0.0, v, 0.0, retro=retro)[5], v, rp)
+        except Exception as ex:  # noqa: BLE001
+            sink.fail(f"seam-exception-{type(ex).__name__}", f"an angle argument of {v!r} raised {ex!r}", rp)
+    ctx.traces_validated += n
+    ctx.extra["seam_arguments"] = n
+
+
+# ------------------------------------- the prograde equinoctial set of an equatorial retrograde state
+def retro_guard(ctx: Ctx, sink: Sink, I: Impl, orbits: list):
+    """Equinoctial elements with retro=False do not exist for an exactly equatorial retrograde orbit (and
+    with retro=True for an exactly equatorial prograde one).  The documented behaviour is to raise
+    (EquinoctialElements: "auto-checks for the EQE singularity"; getInclinationFromEQE: InclinationError
+    "Equatorial retrograde orbit, but retro!=True"); handing back non-finite elements / states silently is
+    a violation.  A finite answer must still be the orbit."""
+    from resonaate.physics.orbits import InclinationError
+    n = 0
+    for rec in orbits:
+        el = rec["el"]
+        if el["case"] not in ("EE", "EC"):
+            continue
+        bad_flag = not el["retro"]              # retro=True on a prograde equatorial, retro=False on a retrograde one
+        if bad_flag:                              # documented only for the retrograde singularity: pose that one
+            continue
+        ecc = O.qf(rec["e"])
+        S = O.Scaled(rec, O.sizes_for(ecc, True)[1], I.mu)
+        x = S.state(rec["r"], rec["v"])
+        rp = {"family": rec["fam"], "rot": rec["rot"], "q": rec["q"], "state": x.tolist(), "retro_flag": False}
+        n += 1
+        ctx.case(("retro-guard", rec["fam"], str(rec["rot"]), rec["q"]), nontrivial=True)
+        for fn, call in (("eci2eqe", lambda: I.c.eci2eqe(x, retro=False)),
+                         ("EquinoctialElements.fromECI", lambda: I.el.EquinoctialElements.fromECI(x, retro=False).toECI()),
+                         ("eqe2coe(eci2eqe)", lambda: I.c.eqe2coe(*I.c.eci2eqe(x, retro=False), retro=False))):
+            try:
+                out = np.asarray(call(), dtype=float)
+            except InclinationError:
+                continue                                            # the documented answer
+            except Exception as ex:  # noqa: BLE001 - some other refusal: not silent, accepted
+                ctx.extra.setdefault("retro_guard_other_exceptions", {}).setdefault(type(ex).__name__, 0)
+                ctx.extra["retro_guard_other_exceptions"][type(ex).__name__] += 1
+                continue
+            if not np.all(np.isfinite(out)):
+                sink.fail(f"retro-equatorial-prograde-eqe-silent-nan-{fn}",
+                          f"{fn} with retro=False on an exactly equatorial retrograde state returns non-finite values "
+                          f"{out.tolist()} instead of raising InclinationError", rp)
+    ctx.traces_validated += n
+    ctx.extra["retro_guard_states"] = n
 
 
 # ------------------------------------------------------------- relations on non-lattice orbits
@@ -622,7 +882,9 @@ def run(ctx: Ctx):
                 "point with 7 inclinations x 16 nodes x 6 perigee arguments x 4-6 sizes (non-quarter-turn, e.g. 28.5/45/63.4 deg); non-trivial = every lattice state (each has its own singular case / "
                 "quadrant pattern); threshold variants: 8 eccentricities x 16 inclinations around the limits of the code x "
                 "random angles; seeded generic orbits a 6600-50000 km, e < 0.9, all inclinations incl. 1e-6 from 0 and pi; "
-                "seeded anomaly pairs incl. circular-limit eccentricities; distinct by the abstract input tuple")
+                "seeded anomaly pairs incl. circular-limit eccentricities; every behaviour of OrbitLatticeConfig.tla (6 accepted field combinations x "
+                "Convert/Derive sequences with up to 2 derivations x 4 ways of deriving x every field) on real config objects; 42 seam arguments; "
+                "distinct by the abstract input tuple")
     ctx.assumptions = [
         "lattice oracle exact (TLC rationals); floats enter only through math.pi, math.acos(e), one division per rational and the documented scaling",
         f"anything that passed through the arccos-based extraction of eci2coe is compared with relative tolerance {TOL_ACOS} "
@@ -633,7 +895,13 @@ def run(ctx: Ctx):
         "equatorial retrograde composite angle: eastward and along-motion conventions both admissible as VALUES; the round trip is demanded",
         "eci2eqe/eqe2eci are used with retro=True on equatorial retrograde orbits, with both flags on inclined ones (retro=False only if i < pi - 1e-3, retro=True only if i > 1e-3)",
         "an angle returned as exactly 2 pi is outside its documented half-open range [0, 2 pi) and is reported under its own signature",
-        "configuration objects are only built for states above the Earth's surface (their validators reject others)",
+        "configuration objects are only built for states above the Earth's surface (their validators reject others); every lattice orbit has its perigee above the surface",
+        "configuration life-cycles: after any sequence of conversions and derivations (model_copy(update), copy / deepcopy + assignment, assignment) toECI() must equal "
+        "the toECI() of a freshly built object with the same fields to 1e-13 relative; derivations change values inside one accepted field combination",
+        "seam arguments: angles within 3 ulps of 0, +-2 pi, 4 pi, pi and -1e-17 / denormals handed to both element classes (all four singular cases and both senses), "
+        "singularityCheck, eqe2coe, coe2eqe and all anomaly / longitude functions: results in [0, 2 pi) and equal to the argument modulo a turn (1e-9)",
+        "the prograde equinoctial set of an exactly equatorial retrograde state does not exist: raising (InclinationError is what the docstrings announce) is accepted, "
+        "non-finite values without an exception are a violation; near-singular states (1 + w_z tiny but not zero) are not posed",
     ]
     cfg = O.lattice_cfg("FamC12Quick" if ctx.quick else "FamAll", arcs=False)
     _res, orbits, _arcs, cases = O.run_lattice(ctx, cfg, "lattice", "OrbitLattice.tla exhaustive (theorems + expected elements), C12",
@@ -646,4 +914,7 @@ def run(ctx: Ctx):
     threshold_variants(ctx, sink, impl, cases, rng)
     seeded_generic(ctx, sink, impl, cases, rng)
     seeded_anomalies(ctx, sink, impl, rng)
+    seam_arguments(ctx, sink, impl)
+    retro_guard(ctx, sink, impl, orbits)
+    config_lifecycles(ctx, sink, impl, orbits)
     ctx.extra["violation_counts"] = dict(sorted(sink.count.items()))
